@@ -99,7 +99,7 @@ def spec(cfg, structs, f):
     if enum_params:
         if len(enum_params) > 1: return None
         for v in range(24):
-            at = list(base); at[enum_params[0]] = 'VI U32 %d' % v; emit(at, [], 'ok', {'order': v})
+            at = list(base); at[enum_params[0]] = 'VI U32 %d' % v; emit(at, [], 'ok', {'order': v}); out[-1]['intstd'] = 'concrete'
         return out
     emit(base, [], 'ok', {})
     return out
